@@ -137,8 +137,24 @@ impl StateCheck for C09 {
     }
 }
 
+/// multi-service systems with auxiliaries and outputs over three steps (a step without output, shares that differ
+/// between steps): the per-step split of the auxiliaries is part of the time layout
+fn aux3_letters() -> Vec<Letter> {
+    let mut al = vec![];
+    for (o1, o2) in [([3, 1, 0], [1, 3, 0]), ([0, 2, 2], [4, 0, 1]), ([1, 1, 1], [0, 0, 2])] {
+        for av in [[1, 1, 1], [0, 2, 1]] {
+            al.push(Letter::many(vec![u(Some(1), "ACS", "GASNATURAL", &k(&[3, 1, 2])), u(Some(1), "CAL", "GASNATURAL", &k(&[1, 3, 2])), o(1, "ACS", &k(&o1)), o(1, "CAL", &k(&o2)), a(Some(1), &k(&av))]));
+        }
+    }
+    al.push(Letter::one(u(Some(0), "ILU", "ELECTRICIDAD", &k(&[1, 2, 3]))));
+    al.push(Letter::one(p(Some(0), "EL_INSITU", &k(&[3, 0, 1]))));
+    al.push(Letter::many(vec![u(Some(2), "CAL", "ELECTRICIDAD", &k(&[1, 1, 0])), u(Some(2), "REF", "ELECTRICIDAD", &k(&[0, 1, 2])), o(2, "CAL", &k(&[2, 3, 0])), o(2, "REF", &[0, -100, -400]), a(Some(2), &k(&[1, 0, 1]))]));
+    al
+}
+
 pub fn run(ctx: &Ctx) -> i32 {
     let shared = Shared::new("C09", ctx);
+    explore(ctx, "AUX3: multi-service systems with auxiliaries over three steps, depth<=2", Wide { alphabet: aux3_letters(), bases: crate::alpha::bases(false), max_add: if ctx.quick() { 2 } else { 3 }, repeat: false }, C09, shared.clone());
     flow_models(ctx, &shared, C09, FlowSpec { quick_depth: 2, thorough_depth: 3, extra: vec![], deep: true, heavy_oracle: true, seeded: true, t3: true, valuesets: false });
     finish(
         ctx,
